@@ -4,6 +4,7 @@ import (
 	"sort"
 
 	"github.com/vektah/gqlparser/v2/ast"
+	"github.com/vektah/gqlparser/v2/parser"
 )
 
 func serDirs(ds ast.DirectiveList) []interface{} {
@@ -121,4 +122,12 @@ func MonoCase(schema *ast.Schema, st Store, doc *ast.QueryDocument, op *ast.Oper
 	}
 	return map[string]interface{}{"op": "mono", "possible": SerPossible(schema), "store": SerStore(st), "frags": frags,
 		"sels": SerSels(op.SelectionSet), "vars": vars, "root": root}
+}
+
+func parseOnly(q string) (*ast.QueryDocument, error) {
+	doc, err := parser.ParseQuery(&ast.Source{Input: q})
+	if err != nil {
+		return nil, err
+	}
+	return doc, nil
 }
